@@ -8,9 +8,9 @@ PROP = {
     "n": {"quick": 240, "thorough": 1200},
     "shards": {"quick": 1, "thorough": 8},
     "cases_per_file": 24,
-    "level_text": "Coq theorems: (sequential) for every history the cache model over the reference storage returns the reference's outputs (write-through, negative caching, TTL expiry handling), given an injective cache key; (schedules) for every interleaving of one writer and any number of readers on one key, at the granularity storage-call / cache-fill, no Get that starts after a Put completed returns an older version. Tied to istoragecache by replaying sequential histories (cached and uncached instance side by side, mem and bbolt underneath) and hook-controlled schedules inside Coq on every run",
-    "level_note": "trusted: Coq kernel/vm_compute, translator (fill guards, makeKey shape), harness + goroutine-id based step scheduler; modelled not verified: fastcache as a map without eviction (the harness sizes it so that nothing is evicted; eviction is not in the property's quantifier), Go memory model below the cache mutex; the writer of the schedule model only Puts (CompareAndDelete racing with a fill is discussed in DESIGN.md)",
-    "rule": "2/3 sequential histories (C06 generator over fixed-length partition keys so that pKey++cCols never collide) run on a cached and an uncached instance (mem, bbolt); 1/3 schedules: writer with 1-3 Puts and 1-3 readers with 1-2 Gets each on one key, interleaving drawn from the PRNG at the granularity of the model's steps; corpus probes (key collision F7, stale fill F8) first; non-trivial = history longer than 3 ops / schedule with a cache miss and a completed Put; distinct = exact op list / exact interleaving",
+    "level_text": "Coq theorems: (sequential) for every history the cache model over the reference storage returns the reference's outputs (write-through, negative caching, TTL expiry handling), given an injective cache key; (schedules) for every interleaving of one writer and any number of readers on one key, at the granularity storage-call / cache-fill, no Get / TTLGet that starts after a write of the writer's program (Put / InsertIfNotExists / CompareAndDelete, each succeeding) completed returns an older content, values and not-found answers alike. Tied to istoragecache by replaying sequential histories (cached and uncached instance side by side, mem and bbolt underneath) and hook-controlled schedules inside Coq on every run",
+    "level_note": "trusted: Coq kernel/vm_compute, translator (fill guards, makeKey shape), harness + goroutine-id based step scheduler; modelled not verified: fastcache as a map without eviction (the harness sizes it so that nothing is evicted; eviction is not in the property's quantifier), Go memory model below the cache mutex; the schedule model has one writer per key (two writers racing on one key are not modelled)",
+    "rule": "2/3 sequential histories (C06 generator over fixed-length partition keys so that pKey++cCols never collide) run on a cached and an uncached instance (mem, bbolt); 1/8 of the sequential histories use long clustering columns (600-byte values differing in the last byte or in length); TTL window probes (TTL write off the whole second, reads 1 ms before / at / after the expiry); 1/3 schedules: writer program of 1-3 Put / InsertIfNotExists / CompareAndDelete and 1-3 readers with 1-2 Get / TTLGet each on one key, the writer also stopped before its storage call, interleaving drawn from the PRNG at the granularity of the model's steps; corpus probes (key collision F7, stale fills F8 and F8b, expired row re-cached F23) first; non-trivial = history longer than 3 ops / schedule with a cache miss and a completed Put; distinct = exact op list / exact interleaving",
     "trusted_base": ["modelled not verified: fastcache (no eviction), Go scheduler (steps are forced through storage-call hooks)"],
     "assumptions": ["single writer per key; no cache eviction during a read's storage-call-to-fill window; distinct (pKey,cCols) pairs have distinct concatenations (else known finding F7)"],
 }
